@@ -839,17 +839,19 @@ def docx_contracts(reg):
     def grid(tbl):
         return VSeq(ET.FA_N(tbl, TR), lambda i, tbl=tbl: row_spec(ET.FA_AT(tbl, TR, i)), "row")
 
-    lv = loop_vars(DOCX, fq)
-    if len(lv) != 4 or not all(d["built"] and d["iter_base"] for d in lv[2:]) or not lv[1]["built"]:
-        return []                      # another loop structure: the bounded walker stays the only defence (nothing is claimed here)
-    rows, cells = lv[2], lv[3]
-    tabs = lv[1]["built"]
+    # loop structure read from the AST: the two outer loops (blocks of the body, tables below a block) append to the two result lists;
+    # the rows / cells loops may have become comprehensions or moved into helpers (then the symbolic lists carry them, no invariant needed)
     fnode = m.functions[fq]
-    anchors = [n.func.value.id for n in ast.walk(fnode) if isinstance(n, ast.Call) and isinstance(n.func, ast.Attribute) and n.func.attr == "append"
-               and isinstance(n.func.value, ast.Name) and n.func.value.id not in (tabs, rows["built"], cells["built"])]
-    if len(set(anchors)) != 1:
+    fors = sorted([n for n in ast.walk(fnode) if isinstance(n, (ast.For, ast.While))], key=lambda n: (n.lineno, n.col_offset))
+    lv = loop_vars(DOCX, fq)
+    if len(lv) not in (2, 4) or len(fors) != len(lv) or (len(lv) == 4 and not all(d["built"] and d["iter_base"] for d in lv[2:])):
+        return []                      # another loop structure: the bounded walker stays the only defence (nothing is claimed here)
+    appended = [st_.value.func.value.id for st_ in fors[1].body if isinstance(st_, ast.Expr) and isinstance(st_.value, ast.Call)
+                and isinstance(st_.value.func, ast.Attribute) and st_.value.func.attr == "append" and isinstance(st_.value.func.value, ast.Name)]
+    if len(appended) != 2 or len(set(appended)) != 2:
         return []
-    anch = anchors[0]
+    tabs, anch = appended
+    rows, cells = (lv[2], lv[3]) if len(lv) == 4 else (None, None)
 
     def inv_len(lc):
         a, b = lc.ex.as_seq(lc.st, lc[tabs]), lc.ex.as_seq(lc.st, lc[anch])
@@ -869,13 +871,14 @@ def docx_contracts(reg):
         return z3.BoolVal(False) if a is None or b is None else a.length == b.length
 
     GRID3, INTS = ("list", ("list", ("list", "str"))), ("list", "int")
+    loops = {0: LoopSpec(inv=inv_len, havoc=((tabs, GRID3), (anch, INTS)), label="blocks"),
+             1: LoopSpec(inv=inv_len, havoc=((tabs, GRID3), (anch, INTS)), label="tables")}
+    if rows is not None:
+        loops[2] = LoopSpec(inv=inv_rows, havoc=((rows["built"], ("list", ("list", "str"))),), label="rows")
+        loops[3] = LoopSpec(inv=inv_cells, havoc=((cells["built"], ("list", "str")),), label="cells")
     return [FnContract(
         target=f"{DOCX}::{fq}", params=[("ctx", p_obj("_DocxContext", {"document_body": p_ext("Elem")}))],
-        ensures=[("one-anchor-per-table", post)], raises=[],
-        loops={0: LoopSpec(inv=inv_len, havoc=((tabs, GRID3), (anch, INTS)), label="blocks"),
-               1: LoopSpec(inv=inv_len, havoc=((tabs, GRID3), (anch, INTS)), label="tables"),
-               2: LoopSpec(inv=inv_rows, havoc=((rows["built"], ("list", ("list", "str"))),), label="rows"),
-               3: LoopSpec(inv=inv_cells, havoc=((cells["built"], ("list", "str")),), label="cells")},
+        ensures=[("one-anchor-per-table", post)], raises=[], loops=loops,
         note="symbolic tree shape: every number of rows and (ragged) cells; a cell = all its own paragraphs joined by a newline")]
 
 
